@@ -479,7 +479,7 @@ func runC06(c *Ctx, r *Report, tier string) {
 			})
 			for _, ret := range returnsOf(po) {
 				if mi, ok := ret.Results[0].(*ssa.MakeInterface); ok {
-					if call, ok := mi.X.(*ssa.Call); ok && (c.calleeName(call.Common()) == "newErrorf" || c.calleeName(call.Common()) == "newError") {
+					if call, ok := mi.X.(*ssa.Call); ok && c.neverNilError(call.Common().StaticCallee(), 0) {
 						continue
 					}
 				}
